@@ -2,14 +2,30 @@
 
 Generator: abstract templates over all tags and attributes (tmplgen), each printed as <dtml-…>, <!--#…--> (with / and end
 forms, optional end-tag arguments) and %(…)[ … %(…)], with random whitespace / quoting / name= / entity spellings.
-Oracle (on the implementation): the three compilations are all accepted or all rejected, their normalised compiled programs
-are equal, and rendering them with each of several namespaces gives the same text, the same exception (class and message)
-and the same sequence of calls of namespace values; &dtml-name; == <dtml-var name html_quote> and
+Wider classes (round 5), printed by a second printer P2 (blanks before the closing delimiter of a tag, unquoted values of
+every character the attribute grammar admits, %(name options)s, end-tag arguments on every block):
+  * words of the grammar as variable names — every tag / continuation / end keyword / attribute name (and dotted, dashed
+    names) inserted at every place of every block kind (small scope, rendering predicted by a reference evaluator) and
+    random templates over all tags whose names are renamed to such words;
+  * hostile attribute values and names — each punctuation character alone, after / before a letter and doubled, as the
+    last and as an inner attribute, at every attribute site that takes free text (var missing / null / name, if name, in
+    sort, except names, let values, raise type), quoted and unquoted (small scope, output predicted from the documented
+    meaning of missing= / null=), and random templates with several such attributes (fmt, etc, size, prefix, start …);
+  * stray tokens (`/`, `//`, `-`, `bogus` …) after the attributes of a tag: rejected in every spelling.
+Oracle (on the implementation): the spellings of one abstract template are all accepted or all rejected, their normalised
+compiled programs are equal AND equal to the program the abstract template denotes (`expect`: computed from the abstract
+template and the documented line-end rule, not from the code), and rendering them with each of several namespaces gives
+the same text, the same exception (class and message) and the same sequence of calls of namespace values — and, where
+predicted, the text the abstract template denotes; &dtml-name; == <dtml-var name html_quote> and
 &dtml.m1.m2-name; == <dtml-var name m1 m2> for every modifier subset of size <= 2 (and some larger).
-Correspondence: the compiled tree of the Lean scanner/builder model for each spelling vs the real parser.
+Correspondence: the compiled tree of the Lean scanner/builder model for each spelling (both printers) vs the real parser.
+Not generated (real differences of the unchanged library, see known notes in the report): a variable called `var` with
+options (<dtml-var var upper> reads the variable `upper`), unquoted values ending in a Unicode blank (U+00A0 …).
 """
+import html
 import itertools
 import json
+import re
 
 import common
 import parselib
@@ -18,6 +34,9 @@ import tmplgen
 SYNTAXES = ['dtml', 'ssi', 'epfs']
 MODS = ['html_quote', 'upper', 'lower', 'capitalize', 'spacify', 'url_quote', 'url_quote_plus', 'newline_to_br', 'sql_quote',
         'thousands_commas', 'url_unquote', 'url_unquote_plus']
+
+
+ADDR = re.compile(r'0x[0-9a-fA-F]{6,}')
 
 
 class Log:
@@ -61,14 +80,27 @@ def namespaces():
     return [ns1, ns2, ns3]
 
 
-def render(kind, src, nsf):
+def render(kind, src, nsf, alias=None, extra=None):
+    """alias: [(new name, old name)] — the new name gets the very object the old name has in this namespace;
+    extra: {name: value} added to every namespace.  With alias / extra the namespace is handed over as the mapping
+    argument (names such as 'mapping' or 'a.b' cannot be keyword arguments of __call__)."""
     from DocumentTemplate import HTML, String
     log = Log()
     try:
         t = (HTML if kind == 'html' else String)(src)
-        out = {'ok': t(**nsf(log))}
+        ns = nsf(log)
+        if alias or extra:
+            for new, old in alias or ():
+                if old in ns:
+                    ns[new] = ns[old]
+            ns.update(extra or {})
+            out = {'ok': t(None, ns)}
+        else:
+            out = {'ok': t(**ns)}
     except Exception as e:  # noqa
         out = {'raise': type(e).__name__, 'msg': str(e)[:300]}
+    # memory addresses in default reprs of library objects (e.g. SequenceFromIter) differ from run to run
+    out = {k: ADDR.sub('0x', v) if isinstance(v, str) else v for k, v in out.items()}
     return out, log.calls
 
 
@@ -85,16 +117,41 @@ def compile_norm(kind, src):
     return rr['status'], rr.get('msg') or rr.get('exc')
 
 
-def check_group(res, label, sources, have_driver, reqs, req_meta):
-    """sources: list of (syntax label, kind, src) that must all mean the same"""
+def check_group(res, label, sources, have_driver, reqs, req_meta, alias=None, extra=None, nss=None,
+                expect_status=None, expect_tree=None, expect_out=None, abstract=None):
+    """sources: list of (syntax label, kind, src) that must all mean the same.
+    expect_status / expect_tree / expect_out: what the ABSTRACT template denotes (computed by the generator from the abstract
+    template and the documented rules, never from the code under test): acceptance, the normalised program (WILD = the
+    table default of a valueless attribute) and, per namespace, the rendering outcome (None = not predicted)."""
     comps = [(lab, kind, src) + compile_norm(kind, src) for lab, kind, src in sources]
     res.evaluations += 1
     base = comps[0]
+    case0 = {'group': label}
+    if abstract is not None:
+        case0['abstract'] = abstract
+    if alias:
+        case0['alias'] = alias
+    if extra:
+        case0['extra'] = extra
     for c in comps[1:]:
         if (c[3], c[4]) != (base[3], base[4]):
             what = 'compile differently: %s -> %s %s ; %s -> %s %s' % (base[0], base[3], json.dumps(base[4])[:300],
                                                                        c[0], c[3], json.dumps(c[4])[:300])
-            res.oracle_fail.append({'case': {'group': label, base[0]: base[2], c[0]: c[2]}, 'what': what})
+            res.oracle_fail.append({'case': dict(case0, **{base[0]: base[2], c[0]: c[2]}), 'what': what})
+            return
+    # the program the abstract template denotes (all spellings compile alike here, the first is compared and named)
+    if expect_status is not None and base[3] != expect_status:
+        res.oracle_fail.append({'case': dict(case0, **{c[0]: c[2] for c in comps}),
+                                'what': 'the abstract template must be %s, every spelling is %s: %s' % (
+                                    'accepted' if expect_status == 'ok' else 'rejected (' + expect_status + ')', base[3],
+                                    json.dumps(base[4])[:300])})
+        return
+    if expect_tree is not None and base[3] == 'ok':
+        res.count('expected_program_compared')
+        if not same_tree(expect_tree, base[4]):
+            res.oracle_fail.append({'case': dict(case0, **{c[0]: c[2] for c in comps}),
+                                    'what': 'compiled program is not the abstract template: expected %s ; compiled %s' % (
+                                        json.dumps(expect_tree, default=repr)[:400], json.dumps(base[4])[:400])})
             return
     for lab, kind, src, st, tree in comps:
         reqs.append({'op': 'compile', 'syntax': kind, 'src': src})
@@ -102,13 +159,22 @@ def check_group(res, label, sources, have_driver, reqs, req_meta):
     if base[3] != 'ok':
         res.count('group_rejected')
         return
-    for i, nsf in enumerate(namespaces()):
-        outs = [(lab, render(kind, src, nsf)) for lab, kind, src in sources]
+    for i, nsf in enumerate(nss or namespaces()):
+        outs = [(lab, render(kind, src, nsf, alias, extra)) for lab, kind, src in sources]
         b = outs[0]
         for o in outs[1:]:
             if o[1] != b[1]:
-                res.oracle_fail.append({'case': {'group': label, 'namespace': i, b[0]: sources[0][2], o[0]: [s for s in sources if s[0] == o[0]][0][2]},
+                res.oracle_fail.append({'case': dict(case0, **{'namespace': i, b[0]: sources[0][2],
+                                                               o[0]: [s for s in sources if s[0] == o[0]][0][2]}),
                                         'what': 'render differently: %s -> %r ; %s -> %r' % (b[0], b[1], o[0], o[1])})
+                return
+        if expect_out is not None and expect_out[i] is not None:
+            res.count('expected_output_compared')
+            got = b[1][0]
+            exp = expect_out[i]
+            if ('ok' in exp and got != exp) or ('raise' in exp and got.get('raise') != exp['raise']):
+                res.oracle_fail.append({'case': dict(case0, **{'namespace': i, b[0]: sources[0][2]}),
+                                        'what': 'renders to %r, the abstract template denotes %r' % (got, exp)})
                 return
         res.count('render_outcome=' + ('raise' if 'raise' in b[1][0] else 'ok'))
 
@@ -123,7 +189,7 @@ def run_all(res, r, n_tmpl, have_driver, big_entities):
                 kind, src = tmplgen.render_source(t, syn, r)
                 sources.append(('%s%d' % (syn, v), kind, src))
         res.nt(('tmpl', sources[0][2][:80]))
-        check_group(res, 'template', sources, have_driver, reqs, meta)
+        check_group(res, 'template', sources, have_driver, reqs, meta, expect_tree=expect(t), abstract=repr(t))
     # entity references
     subsets = [()] + [(m,) for m in MODS] + list(itertools.permutations(MODS, 2))
     if big_entities:
@@ -176,42 +242,674 @@ def run_all(res, r, n_tmpl, have_driver, big_entities):
             res.nt(('else-args', sep, rep))
             check_group(res, 'else-with-arguments', sources, have_driver, reqs, meta)
     # model correspondence
-    if have_driver and reqs:
-        resp = common.run_driver(reqs)
-        for (lab, kind, src, st, tree), rp in zip(meta, resp):
-            m = rp.get('ok')
-            if m is None:
-                res.harness_errors.append('driver: %r' % (rp,))
-                break
-            if st in ('timeout', 'recursion', 'other'):
+    if have_driver:
+        correspond(res, reqs, meta)
+
+
+def correspond(res, reqs, meta):
+    """compiled tree of the Lean scanner/builder model for every spelling vs the real parser"""
+    if not reqs:
+        return
+    resp = common.run_driver(reqs)
+    for (lab, kind, src, st, tree), rp in zip(meta, resp):
+        m = rp.get('ok')
+        if m is None:
+            res.harness_errors.append('driver: %r' % (rp,))
+            break
+        if st in ('timeout', 'recursion', 'other'):
+            continue
+        res.corr_checked += 1
+        model_ok = m['status'] == 'ok' and all(parselib.expr_ok(s) for s, _ in m['exprs'])
+        if (st == 'ok') != model_ok:
+            res.corr_mismatch.append({'case': {'syntax': kind, 'src': src}, 'impl': st, 'model': m['status'], 'diff': 'acceptance'})
+        elif st == 'ok':
+            b = parselib.norm_model(m['tree'])
+            if tree != b:
+                res.corr_mismatch.append({'case': {'syntax': kind, 'src': src}, 'impl': tree, 'model': b, 'diff': 'compiled tree'})
+
+
+# ======================================================================================================================
+# Wider input classes (round 5).  Everything below works on ABSTRACT templates (tmplgen's node format); what a template
+# denotes — acceptance, program, and for the small-scope families the rendered text — is computed here from the abstract
+# template and the documented rules, and compared with what the real classes do with each concrete spelling.
+
+class _Wild:
+    """the table default of an attribute written without a value"""
+
+    def __repr__(self):
+        return '<default>'
+
+
+WILD = _Wild()
+EOL = re.compile('[ \t]*\n')
+
+
+def same_tree(exp, real):
+    if exp is WILD:
+        return True
+    if isinstance(exp, list):
+        return isinstance(real, list) and len(exp) == len(real) and all(same_tree(a, b) for a, b in zip(exp, real))
+    return exp == real
+
+
+def _tgt(t):
+    return [t[1], t[0] == 'expr']
+
+
+def _params(opts):
+    return [[k, WILD if v is None else v] for k, v in opts]
+
+
+def expect(nodes, after_block=False):
+    """The program an abstract template denotes, in parselib.norm's form.  Documented line-end rule: blanks + one newline
+    directly after a block's start, continuation or end tag are not part of the text."""
+    out = []
+    for n in nodes:
+        k = n[0]
+        if k == 'lit':
+            t = n[1]
+            if after_block:
+                m = EOL.match(t)
+                if m:
+                    t = t[m.end():]
+            if t:
+                out.append(['lit', t])
+            after_block = False
+            continue
+        after_block = k not in ('var', 'call', 'return')
+        if k == 'var':
+            out.append(['var'] + _tgt(n[1]) + [_params(n[2]), 's'])
+        elif k in ('call', 'return'):
+            out.append([k] + _tgt(n[1]))
+        elif k == 'comment':
+            out.append(['comment'])
+        elif k == 'if':
+            out.append(['if', [_tgt(t) + [expect(b, True)] for t, b in n[1]], expect(n[2], True) if n[2] is not None else None])
+        elif k == 'unless':
+            out.append(['unless'] + _tgt(n[1]) + [expect(n[2], True)])
+        elif k == 'in':
+            out.append(['in'] + _tgt(n[1]) + [_params(n[2]), expect(n[3], True), expect(n[4], True) if n[4] is not None else None])
+        elif k == 'with':
+            out.append(['with'] + _tgt(n[1]) + [[], expect(n[3], True)])
+        elif k == 'let':
+            out.append(['let', None, expect(n[2], True)])
+        elif k == 'raise':
+            out.append(['raise'] + _tgt(n[1]) + [expect(n[2], True)])
+        elif k == 'try':
+            hs = []
+            for names, b in n[2]:
+                hs += [[nm, expect(b, True)] for nm in (names.split() or [''])]
+            out.append(['try', expect(n[1], True), hs, expect(n[3], True) if n[3] is not None else None,
+                        expect(n[4], True) if n[4] is not None else None])
+        else:
+            raise ValueError(k)
+    return out
+
+
+# --------------------------------------------------------------------------- second printer: wider concrete variation
+# Beyond tmplgen's printer: white space before the closing delimiter of a tag, unquoted attribute values and names made of
+# every character the documented attribute grammar admits unquoted (value chars: anything but white space, control
+# characters, '=' and '"'), the same values quoted, %(name options)s (the short var form WITH options), end-tag arguments
+# on every block tag.  Per syntax a value is printed unquoted only where that syntax can carry it: '>' ends a <dtml- tag and
+# ')' ends a %( tag, so such values are quoted there; no value contains '"', '-->' or a tag opener (not printable at all).
+
+ENT_NAME = re.compile(r'[-a-zA-Z0-9_.]+\Z')
+EPFS_NAME = re.compile(r'[a-zA-Z0-9_/.-]+\Z')
+WORD = re.compile(r'[A-Za-z0-9_]+\Z')
+
+
+def printable(v):
+    return '"' not in v and '-->' not in v and tmplgen.inert(v)
+
+
+def can_unq(v, syntax):
+    if not v or not printable(v):
+        return False
+    for ch in v:
+        # the grammar's unquoted class is [^\000- ="]; Unicode blanks are left to the quoted form (see `suspicious` in the
+        # report: str.strip() removes them at the end of the argument string)
+        if ch <= ' ' or ch in '="' or ch.isspace() or ch == '\x7f':
+            return False
+    if syntax == 'dtml' and '>' in v:
+        return False
+    if syntax == 'epfs' and ')' in v:
+        return False
+    return True
+
+
+class P2:
+    def __init__(self, r, syntax):
+        self.r, self.syntax = r, syntax
+
+    def sp(self):
+        return self.r.choice([' ', ' ', ' ', '  ', '\n', ' \t', '\r\n'])
+
+    def trail(self):
+        return self.r.choice(['', '', '', ' ', '\n', '  ', '\t'])
+
+    def val(self, v):
+        if can_unq(v, self.syntax) and self.r.random() < 0.65:
+            return v
+        return '"%s"' % v
+
+    def target(self, t, attr='name'):
+        kind, v = t
+        if kind == 'expr':
+            return self.r.choice(['expr="%s"' % v, '"%s"' % v])
+        if can_unq(v, self.syntax) and self.r.random() < 0.6:
+            return v
+        return '%s=%s' % (attr, self.val(v))
+
+    def opts(self, opts):
+        return [k if v is None else '%s=%s' % (k, self.val(v)) for k, v in opts]
+
+    def join(self, parts):
+        parts = [p for p in parts if p]
+        return ''.join(p if i == 0 else self.sp() + p for i, p in enumerate(parts))
+
+    def esp(self, args):
+        # %( syntax: arguments that begin with a quote need two blanks after the tag name (tmplgen.epfs_sp)
+        s = self.sp()
+        if args.startswith('"') and len(s) < 2:
+            s += ' '
+        return s
+
+    def tag(self, head, name, args, tail):
+        if self.syntax == 'epfs':
+            return head + name + ((self.esp(args) + args) if args else '') + self.trail() + tail
+        return head + name + ((self.sp() + args) if args else '') + self.trail() + tail
+
+    def open(self, name, args):
+        if self.syntax == 'dtml':
+            return self.tag('<dtml-', name, args, '>')
+        if self.syntax == 'ssi':
+            return self.tag('<!--#' + self.r.choice(['', '', ' ']), name, args, '-->')
+        return self.tag('%(', name, args, ')[')
+
+    def close(self, name, args):
+        args = args if args and self.r.random() < 0.3 else ''
+        if self.syntax == 'dtml':
+            return self.tag('</dtml-', name, args, '>')
+        if self.syntax == 'ssi':
+            return self.tag('<!--#' + self.r.choice(['/', '/', 'end', 'end ', 'END', ' /']), name, args, '-->')
+        return self.tag('%(', name, args, ')]')
+
+    def simple(self, name, args):
+        if self.syntax == 'dtml':
+            return self.tag('<dtml-', name, args, '>')
+        if self.syntax == 'ssi':
+            return self.tag('<!--#' + self.r.choice(['', '', ' ']), name, args, '-->')
+        return self.tag('%(', name, args, ')' + self.r.choice('[!'))
+
+    def nodes(self, nodes):
+        return ''.join(self.node(n) for n in nodes)
+
+    def node(self, n):
+        k = n[0]
+        r = self.r
+        if k == 'lit':
+            return n[1]
+        if k == 'var':
+            _, t, opts = n
+            if self.syntax == 'epfs':
+                if t[0] == 'name' and EPFS_NAME.match(t[1]) and t[1] != 'var' and r.random() < 0.5:
+                    # %(name options)s
+                    return self.tag('%(', t[1], self.join(self.opts(opts)), ')s')
+                return self.tag('%(', 'var', self.join([self.target(t)] + self.opts(opts)), ')s')
+            if t[0] == 'name' and ENT_NAME.match(t[1]) and opts and r.random() < 0.3 and \
+                    all(v is None and WORD.match(o) for o, v in opts):
+                mods = [o for o, _ in opts]
+                if mods == ['html_quote']:
+                    return '&dtml-%s;' % t[1]
+                return '&dtml.%s-%s;' % ('.'.join(mods), t[1])
+            return self.simple('var', self.join([self.target(t)] + self.opts(opts)))
+        if k in ('call', 'return'):
+            return self.simple(k, self.target(n[1]))
+        if k == 'comment':
+            return self.open('comment', '') + self.nodes(n[1]) + self.close('comment', '')
+        if k == 'if':
+            _, conds, els = n
+            first = self.target(conds[0][0])
+            s = self.open('if', first) + self.nodes(conds[0][1])
+            for t, body in conds[1:]:
+                s += self.open('elif', self.target(t)) + self.nodes(body)
+            if els is not None:
+                # old style: the else may repeat the if's (bare) name
+                rep = first if conds[0][0][0] == 'name' and first == conds[0][0][1] and r.random() < 0.2 else ''
+                s += self.open('else', rep) + self.nodes(els)
+            return s + self.close('if', first)
+        if k == 'unless':
+            a = self.target(n[1])
+            return self.open('unless', a) + self.nodes(n[2]) + self.close('unless', a)
+        if k == 'in':
+            _, t, opts, body, els = n
+            a = self.join([self.target(t)] + self.opts(opts))
+            s = self.open('in', a) + self.nodes(body)
+            if els is not None:
+                s += self.open('else', '') + self.nodes(els)
+            return s + self.close('in', a)
+        if k == 'with':
+            _, t, opts, body = n
+            a = self.join([self.target(t)] + self.opts(opts))
+            return self.open('with', a) + self.nodes(body) + self.close('with', a)
+        if k == 'let':
+            _, binds, body = n
+            a = self.join(['%s=%s' % (nm, '"%s"' % v if is_expr else v) for nm, v, is_expr in binds])
+            return self.open('let', a) + self.nodes(body) + self.close('let', a)
+        if k == 'raise':
+            a = self.target(n[1], 'type')
+            return self.open('raise', a) + self.nodes(n[2]) + self.close('raise', a)
+        if k == 'try':
+            _, body, excs, els, fin = n
+            s = self.open('try', '') + self.nodes(body)
+            for names, b in excs:
+                s += self.open('except', names) + self.nodes(b)
+            if els is not None:
+                s += self.open('else', '') + self.nodes(els)
+            if fin is not None:
+                s += self.open('finally', '') + self.nodes(fin)
+            return s + self.close('try', '')
+        raise ValueError(k)
+
+
+def spellings(t, r, with_tmplgen=True):
+    """concrete sources of one abstract template: per syntax one by tmplgen's printer and one by P2, or two by P2"""
+    sources = []
+    for syn in SYNTAXES:
+        kind = 'epfs' if syn == 'epfs' else 'html'
+        if with_tmplgen:
+            sources.append((syn + '-a', kind, tmplgen.render_source(t, syn, r)[1]))
+        for v in range(1 if with_tmplgen else 2):
+            sources.append(('%s-w%d' % (syn, v), kind, P2(r, syn).nodes(t)))
+    return sources
+
+
+# --------------------------------------------------------------------------- class B: names that are words of the grammar
+# A variable (if / in / with / let / call target) may be called like a tag, a block continuation, an end keyword or an
+# attribute: <dtml-var else>, &dtml-else;, %(else)s, %(else upper)s are insertions of the variable `else` wherever they
+# stand — also directly inside the block whose continuation has that name.
+TAG_WORDS = ['call', 'in', 'with', 'if', 'unless', 'else', 'elif', 'comment', 'raise', 'try', 'except', 'finally', 'let',
+             'return', 'tree', 'sendmail', 'end', 'endif', 'endin', 'Else', 'ELIF']
+ATTR_WORDS = ['name', 'expr', 'html_quote', 'mapping', 'missing', 'null', 'fmt', 'size', 'sort', 'reverse', 'only', 'type',
+              'upper', 'etc', 'prefix', 'url']
+ODD_WORDS = ['a.b', 'a-b', 'x-else', 'else-x', 'else.x', 'sequence-item', '_', '0', '1x', 'a_b', 'dtml-var', 'dtml']
+# not generated: the name `var` (see the report: <dtml-var var upper> is read as the variable `upper`)
+CONTINUATIONS = ['else', 'elif', 'except', 'finally']
+
+
+def rename(nodes, m):
+    def tg(t):
+        return ('name', m.get(t[1], t[1])) if t is not None and t[0] == 'name' else t
+
+    out = []
+    for n in nodes:
+        k = n[0]
+        if k == 'lit':
+            out.append(n)
+        elif k == 'var':
+            out.append(('var', tg(n[1]), n[2]))
+        elif k in ('call', 'return'):
+            out.append((k, tg(n[1])))
+        elif k == 'comment':
+            out.append(n)
+        elif k == 'if':
+            out.append(('if', [(tg(t), rename(b, m)) for t, b in n[1]], rename(n[2], m) if n[2] is not None else None))
+        elif k == 'unless':
+            out.append(('unless', tg(n[1]), rename(n[2], m)))
+        elif k == 'in':
+            out.append(('in', tg(n[1]), n[2], rename(n[3], m), rename(n[4], m) if n[4] is not None else None))
+        elif k == 'with':
+            out.append(('with', tg(n[1]), n[2], rename(n[3], m)))
+        elif k == 'let':
+            out.append(('let', [(nm, v if is_expr else m.get(v, v), is_expr) for nm, v, is_expr in n[1]], rename(n[2], m)))
+        elif k == 'raise':
+            out.append(('raise', n[1], rename(n[2], m)))       # the target is an exception type, not a variable
+        elif k == 'try':
+            out.append(('try', rename(n[1], m), [(nm, rename(b, m)) for nm, b in n[2]],
+                        rename(n[3], m) if n[3] is not None else None, rename(n[4], m) if n[4] is not None else None))
+        else:
+            raise ValueError(k)
+    return out
+
+
+class Raised(Exception):
+    pass
+
+
+def ref_render(tree, ns):
+    """Reference rendering of an expected program of the small-scope families (plain names, str values, lists)."""
+    out = []
+    for n in tree:
+        k = n[0]
+        if k == 'lit':
+            out.append(n[1])
+        elif k == 'var':
+            if n[2]:
+                raise Raised('expr')
+            if n[1] in ns:
+                v = str(ns[n[1]])
+            else:
+                miss = [pv for pk, pv in n[3] if pk == 'missing']
+                if not miss:
+                    raise Raised('KeyError')
+                out.append(miss[0])
                 continue
-            res.corr_checked += 1
-            model_ok = m['status'] == 'ok' and all(parselib.expr_ok(s) for s, _ in m['exprs'])
-            if (st == 'ok') != model_ok:
-                res.corr_mismatch.append({'case': {'syntax': kind, 'src': src}, 'impl': st, 'model': m['status'], 'diff': 'acceptance'})
-            elif st == 'ok':
-                b = parselib.norm_model(m['tree'])
-                if tree != b:
-                    res.corr_mismatch.append({'case': {'syntax': kind, 'src': src}, 'impl': tree, 'model': b, 'diff': 'compiled tree'})
+            flags = [pk for pk, pv in n[3]]
+            if flags == ['upper']:
+                v = v.upper()
+            elif flags == ['lower']:
+                v = v.lower()
+            elif flags == ['html_quote']:
+                v = html.escape(v, quote=True)
+            elif flags == ['null'] or flags == ['missing']:
+                if flags == ['null'] and not ns[n[1]] and ns[n[1]] != 0:
+                    v = n[3][0][1]
+            elif flags:
+                raise Raised('unmodelled')
+            out.append(v)
+        elif k == 'comment':
+            pass
+        elif k == 'if':
+            for name, is_expr, body in n[1]:
+                if ns[name]:
+                    out.append(ref_render(body, ns))
+                    break
+            else:
+                if n[2] is not None:
+                    out.append(ref_render(n[2], ns))
+        elif k == 'unless':
+            if not ns[n[1]]:
+                out.append(ref_render(n[3], ns))
+        elif k == 'in':
+            seq = ns[n[1]]
+            if seq:
+                out.extend(ref_render(n[4], ns) for _ in seq)
+            elif n[5] is not None:
+                out.append(ref_render(n[5], ns))
+        elif k == 'with':
+            out.append(ref_render(n[4], ns))      # the object has no attributes: nothing is shadowed
+        elif k == 'let':
+            out.append(ref_render(n[2], ns))      # binds v0 only, which the body does not use
+        elif k == 'try':
+            out.append(ref_render(n[1], ns))      # nothing raises
+            if n[3] is not None:
+                out.append(ref_render(n[3], ns))
+            if n[4] is not None:
+                out.append(ref_render(n[4], ns))
+        else:
+            raise Raised(k)
+    return ''.join(out)
+
+
+def small_ns():
+    return [lambda log: dict(c=1, d=0, seq=[1, 2], o=O()), lambda log: dict(c=0, d=1, seq=[], o=O()),
+            lambda log: dict(c=0, d=0, seq=[7], o=O())]
+
+
+def predicted(t, extra):
+    exp_tree = expect(t)
+    outs = []
+    for nsf in small_ns():
+        ns = dict(nsf(None), **extra)
+        try:
+            outs.append({'ok': ref_render(exp_tree, ns)})
+        except Raised as e:
+            outs.append({'raise': e.args[0]} if e.args[0] == 'KeyError' else None)
+    return exp_tree, outs
+
+
+def shapes(v):
+    """one insertion `v` at every place of every block kind (first thing of a section, between texts, last thing)"""
+    c, d = ('name', 'c'), ('name', 'd')
+    L = lambda s: ('lit', s)  # noqa: E731
+    return [
+        ('top', [L('['), v, L(']')]),
+        ('if', [L('['), ('if', [(c, [L('A'), v, L('B')]), (d, [v, L('E')])], [L('C'), v]), L(']')]),
+        ('if1', [('if', [(c, [v])], None), L('.')]),
+        ('unless', [('unless', c, [v, L('U')]), v]),
+        ('in', [L('('), ('in', ('name', 'seq'), [], [v, L(',')], [L('none'), v]), L(')')]),
+        ('in1', [('in', ('name', 'seq'), [], [L('i'), v], None)]),
+        ('try', [('try', [L('T'), v], [('KeyError', [L('H'), v])], [v, L('L')], None)]),
+        ('try-default', [('try', [v], [('', [v])], None, None), L('!')]),
+        ('try-finally', [('try', [v, L('T')], [], None, [v, L('F')])]),
+        ('with', [('with', ('name', 'o'), [], [v, L('W')])]),
+        ('let', [('let', [('v0', 'c', False)], [L('l'), v])]),
+        ('comment', [('comment', [L('gone')]), v]),
+    ]
+
+
+def run_reserved(res, r, n_random, reqs, meta):
+    words = TAG_WORDS + ATTR_WORDS + ODD_WORDS
+    # small scope, predicted: every word x every block kind
+    for w in words:
+        for i in range(len(shapes(None))):
+            opts = r.choice([[], [], [('upper', None)], [('html_quote', None)], [('missing', 'm')]])
+            sname, t = shapes(('var', ('name', w), opts))[i]
+            extra = {w: '<%s&>' % w}
+            exp_tree, outs = predicted(t, extra)
+            if w in ('sequence-item', 'mapping') and sname.startswith('in'):
+                outs = None       # the in tag itself defines these two names inside its body: not predicted here
+            res.nt(('word', w, sname, bool(opts)))
+            res.count('reserved_word_small_scope')
+            check_group(res, 'word-as-variable', spellings(t, r), False, reqs, meta, extra=extra, nss=small_ns(),
+                        expect_status='ok', expect_tree=exp_tree, expect_out=outs, abstract=repr(t))
+    # random templates over all tags whose names are renamed to words of the grammar
+    for _ in range(n_random):
+        t = tmplgen.gen_template(r, r.choice([1, 2, 2, 3]), 3)
+        names = list(tmplgen.NAMES)
+        r.shuffle(names)
+        picked = r.sample(words, r.randint(1, 4))
+        if r.random() < 0.6:
+            picked[0] = r.choice(CONTINUATIONS)
+        m = dict(zip(names, picked))
+        t2 = rename(t, m)
+        alias = sorted((new, old) for old, new in m.items())
+        res.nt(('renamed', repr(t2)[:80]))
+        res.count('reserved_word_random')
+        check_group(res, 'renamed-template', spellings(t2, r), False, reqs, meta, alias=alias,
+                    expect_tree=expect(t2), abstract=repr(t2))
+
+
+# --------------------------------------------------------------------------- class A: hostile attribute values and names
+# Values / names built from every character the attribute grammar admits, in particular as the LAST thing of a tag directly
+# before its closing delimiter (with and without blanks in between), unquoted where the syntax can carry them and quoted.
+UNQ_CHARS = list("/\\!#$%&'*+,-.:;<?@[]^_`{|}~(") + ['é', 'K', '0']
+QUOTED_CHARS = [' ', '  ', '>', ')', '=', '\n', '\t', ' /', '/ ', ' ']
+PIECES = ['a', 'x', 'else', 'end', 'var', 'n/a', './', '../', 'http://h/', '--', '/>', '1', 'no']
+
+
+def gen_value(r, quoted_ok=True):
+    for _ in range(20):
+        parts = []
+        for _ in range(r.choice([1, 1, 2, 2, 3])):
+            c = r.random()
+            if c < 0.55:
+                parts.append(r.choice(UNQ_CHARS))
+            elif c < 0.85 or not quoted_ok:
+                parts.append(r.choice(PIECES))
+            else:
+                parts.append(r.choice(QUOTED_CHARS))
+        v = ''.join(parts)
+        if printable(v) and v != 'var' and (quoted_ok or all(can_unq(v, s) for s in SYNTAXES)):
+            return v
+    return '/'
+
+
+def systematic_values():
+    vals = []
+    for ch in UNQ_CHARS:
+        vals += [ch, 'a' + ch, ch + 'a', '.' + ch, ch + ch]
+    return [v for v in vals if printable(v)]
+
+
+def run_hostile(res, r, n_random, reqs, meta):
+    L = lambda s: ('lit', s)  # noqa: E731
+    flags = ['upper', 'lower', 'html_quote']
+    # small scope, predicted: each character alone / after / before a letter / doubled, at each attribute site
+    for v in systematic_values():
+        sites = [
+            ('missing-last', [L('['), ('var', ('name', 'nope'), [('missing', v)]), L(']')]),
+            ('missing-inner', [('var', ('name', 'nope'), [('missing', v), ('null', 'n')]), L('|')]),
+            ('null-last', [L('['), ('var', ('name', 'z'), [('null', v)]), L(']')]),
+            ('name', [L('['), ('var', ('name', v), r.choice([[], [(r.choice(flags), None)]])), L(']')]),
+            ('if-name', [('if', [(('name', v), [L('yes')])], [L('no')])]),
+            ('in-sort', [('in', ('name', 'seq'), [('sort', v)], [L('i')], None)]),
+            ('except', [('try', [L('t')], [(v, [L('h')])], None, None)]),
+            ('let', [('let', [('v0', v, False)], [L('b')])]),
+            ('raise', [('raise', ('name', v), [L('msg')])]),
+        ]
+        for sname, t in sites:
+            if sname in ('let', 'except') and not all(can_unq(v, s) for s in SYNTAXES):
+                continue          # no quoted form exists for these
+            extra = {v: 'val'} if sname in ('name', 'if-name', 'let') else {}
+            extra['z'] = None
+            exp_tree = expect(t)
+            outs = None
+            if sname in ('missing-last', 'null-last'):
+                outs = [{'ok': '[' + v + ']'}] * 3           # documented: missing= / null= give the replacement text
+            elif sname == 'missing-inner':
+                outs = [{'ok': v + '|'}] * 3
+            elif sname == 'name':
+                exp_tree, outs = predicted(t, extra)
+            elif sname == 'if-name':
+                outs = [{'ok': 'yes'}] * 3
+            res.nt(('value', v, sname))
+            res.count('hostile_value_small_scope')
+            check_group(res, 'attribute-value:' + sname, spellings(t, r, with_tmplgen=False), False, reqs, meta, extra=extra,
+                        nss=small_ns(), expect_status='ok', expect_tree=exp_tree, expect_out=outs, abstract=repr(t))
+    # random: several hostile attributes on all tags that take values, inside blocks
+    for _ in range(n_random):
+        extra = {}
+
+        def name():
+            v = gen_value(r)
+            extra[v] = 'N%d' % len(extra)
+            return ('name', v)
+
+        def hv():
+            k = r.choice(['missing', 'null', 'name', 'fmt', 'etc', 'plain'])
+            opts = [(f, None) for f in flags if r.random() < 0.15]
+            if k == 'missing':
+                return ('var', ('name', r.choice(['nope', 'x'])), opts + [('missing', gen_value(r))])
+            if k == 'null':
+                return ('var', ('name', r.choice(['z', 'y'])), opts + [('null', gen_value(r))] +
+                        ([('missing', gen_value(r))] if r.random() < 0.3 else []))
+            if k == 'fmt':
+                return ('var', ('name', 'y'), [('fmt', r.choice(['%s', '%s/', '[%s]', '%d;', '%s' + gen_value(r).replace('%', '')]))])
+            if k == 'etc':
+                return ('var', ('name', 'x'), [('size', str(r.randint(1, 5))), ('etc', gen_value(r))])
+            if k == 'name':
+                return ('var', name(), opts)
+            return ('var', ('name', r.choice(['x', 'y'])), opts)
+
+        def body(depth):
+            out = []
+            for _ in range(r.randint(1, 2)):
+                t = tmplgen.gen_lit(r, 2)
+                if t:
+                    out.append(L(t))
+                out.append(block(depth - 1) if depth > 0 and r.random() < 0.4 else hv())
+            t = tmplgen.gen_lit(r, 2)
+            if t:
+                out.append(L(t))
+            return out
+
+        def block(depth):
+            k = r.choice(['if', 'unless', 'in', 'with', 'let', 'raise', 'try', 'call'])
+            if k == 'if':
+                return ('if', [(name(), body(depth)) for _ in range(r.randint(1, 2))], body(depth) if r.random() < 0.5 else None)
+            if k == 'unless':
+                return ('unless', name(), body(depth))
+            if k == 'in':
+                opts = []
+                if r.random() < 0.5:
+                    opts.append(('sort', gen_value(r)))
+                if r.random() < 0.3:
+                    opts.append(('prefix', r.choice(['p', 'else', 'end', 'p_1'])))
+                if r.random() < 0.3:
+                    opts.append((r.choice(['size', 'start']), r.choice(['1', '2', '3'])))
+                    if r.random() < 0.4:
+                        opts.append((r.choice(['orphan', 'overlap', 'end']), r.choice(['1', '2', '0', '-1'])))
+                return ('in', ('name', r.choice(['items', 'seq'])), opts, body(depth), body(depth) if r.random() < 0.3 else None)
+            if k == 'with':
+                return ('with', name(), [], body(depth))
+            if k == 'let':
+                v = gen_value(r, quoted_ok=False)
+                extra[v] = 'L'
+                return ('let', [('v0', v, False)], body(depth))
+            if k == 'raise':
+                return ('raise', ('name', gen_value(r)), body(depth))
+            if k == 'try':
+                return ('try', body(depth), [(' '.join(gen_value(r, quoted_ok=False) for _ in range(r.randint(1, 2))), body(depth))],
+                        None, None)
+            return ('call', name())
+
+        t = body(2)
+        extra.update(z=None, seq=[3, 1])
+        res.nt(('hostile', repr(t)[:80]))
+        res.count('hostile_value_random')
+        check_group(res, 'attribute-values', spellings(t, r, with_tmplgen=False), False, reqs, meta, extra=extra,
+                    expect_status='ok', expect_tree=expect(t), abstract=repr(t))
+    # stray tokens: an abstract tag with one more, invalid, valueless attribute is rejected in every spelling
+    for junk in ['/', '//', '-', '!', '?', 'bogus', 'x/', '/x', '.', '#', 'endin', 'else']:
+        for sname, t in [
+                ('var', [L('a'), ('var', ('name', 'x'), [('upper', None), (junk, None)])]),
+                ('var1', [('var', ('name', 'x'), [(junk, None)]), L('b')]),
+                ('in', [('in', ('name', 'items'), [(junk, None)], [L('i')], None)]),
+                ('with', [('with', ('name', 'obj'), [(junk, None)], [L('w')])]),
+                ('if', [('if', [(('name', 'x'), [L('y')])], None)]),
+        ]:
+            if sname == 'if':
+                # the if tag takes nothing but its condition
+                srcs = []
+                for syn in SYNTAXES:
+                    p = P2(r, syn)
+                    srcs.append((syn, 'epfs' if syn == 'epfs' else 'html', p.open('if', 'x' + p.sp() + junk) + 'y' + p.close('if', '')))
+            else:
+                srcs = spellings(t, r, with_tmplgen=False)
+            res.nt(('stray', junk, sname))
+            res.count('stray_token')
+            check_group(res, 'stray-token:' + sname, srcs, False, reqs, meta, expect_status='parse-error', abstract=repr(t))
+
+
+def run_wide(res, r, tier_n):
+    reqs, meta = [], []
+    run_reserved(res, r, tier_n, reqs, meta)
+    run_hostile(res, r, tier_n, reqs, meta)
+    return reqs, meta
 
 
 def run(res, tier, have_driver):
     r = common.rng('C07')
     res.rule = ('abstract templates (all tags, attributes, nesting <= 3) printed 2x as <dtml->, 2x as <!--#--> (/, end, END forms) and '
                 'as %(…); entity references for every modifier subset of size <= 2 (+ samples of 3..5) on 3 names vs the three '
-                'var spellings; entities directly after end tags; else-with-arguments with 5 separators; each group: same '
-                'acceptance, same normalised program, same output / exception / call log on 3 namespaces; non-trivial = distinct '
-                'groups')
+                'var spellings; entities directly after end tags; else-with-arguments with 5 separators; words of the grammar '
+                '(tag, continuation, end, attribute names, dotted / dashed names) as variable names at every place of every '
+                'block kind + random templates renamed to such words; attribute values / names of every punctuation character '
+                '(alone, after / before a letter, doubled; last and inner attribute; quoted and unquoted; blanks before the '
+                'closing delimiter) at every free-text attribute site + random templates with several such attributes; stray '
+                'tokens after the attributes (rejected alike); each group (6 spellings from two printers): same acceptance, '
+                'same normalised program == the program the abstract template denotes, same output / exception / call log on '
+                '3 namespaces (== the predicted text in the small-scope families); non-trivial = distinct groups')
     run_all(res, r, 250 if tier == 'quick' else 5000, have_driver, tier != 'quick')
+    reqs, meta = run_wide(res, common.rng('C07-wide'), 150 if tier == 'quick' else 3000)
+    if have_driver:
+        correspond(res, reqs, meta)
     res.assumptions += ['hand-compiled scanners validated against CPython re by token/tree correspondence',
                         'rendering equality is checked on the implementation directly (three namespaces with logged callables, '
-                        'undefined names, mappings)']
+                        'undefined names, mappings)',
+                        'expected programs / texts come from the abstract template (expect, ref_render in harness/props/c07.py: '
+                        'documented line-end rule, missing= / null= / upper / lower / html_quote on plain strings)',
+                        'not generated: a variable named `var` with options; unquoted values ending in a Unicode blank; values '
+                        'containing a double quote, "-->" or a tag opener (not printable in every syntax)']
 
 
 def search_more(res, tier):
     r = common.rng('C07-more')
     res2 = common.Result('C07')
     run_all(res2, r, 2500, False, True)
+    if not res2.oracle_fail:
+        run_wide(res2, common.rng('C07-wide-more'), 1500)
     return res2.oracle_fail
 
 
